@@ -69,7 +69,7 @@ def cases(tier):
                 out.append(dict(m=m, route=route, target='DL_POLY_EAM_fs' if fs else 'DL_POLY_EAM'))
     for fs in (False, True):
         for m in EK.api_option_models(fs):
-            if 'comments' in m:
+            if 'comments' in m or 'header_cutoff' in m:
                 continue
             for route in (('proc',) if 'title' in m else ('cls', 'proc')):
                 out.append(dict(m=m, route=route, target='DL_POLY_EAM_fs' if fs else 'DL_POLY_EAM'))
